@@ -749,8 +749,8 @@ spif_mbuff_trim(spif_mbuff_t self)
     }
     start = self->buff;
     end = self->buff + self->len - 1;
-    for (; isspace((spif_uchar_t) (*start)) && (start < end); start++);
-    for (; isspace((spif_uchar_t) (*end)) && (start < end); end--);
+    for (; (start <= end) && isspace((spif_uchar_t) (*start)); start++);
+    for (; (start <= end) && isspace((spif_uchar_t) (*end)); end--);
     if (start > end) {
         return spif_mbuff_done(self);
     }
